@@ -524,6 +524,19 @@ def plumbed_names(fn, m):
             it = n.iter
             if nm(it):
                 out.add(it.id)
+    # a plain copy of a record is the same record
+    grew = True
+    while grew:
+        grew = False
+        for n in ast.walk(fn):
+            if isinstance(n, ast.Assign) and len(n.targets) == 1 and isinstance(n.targets[0], ast.Name) and isinstance(n.value, ast.Name):
+                a, b = n.targets[0].id, n.value.id
+                if a in out and b not in out:
+                    out.add(b)
+                    grew = True
+                elif b in out and a not in out:
+                    out.add(a)
+                    grew = True
     return out
 
 
@@ -572,7 +585,7 @@ class FnPE:
     def run(self):
         env = {}
         body = self.block(self.fn.body, env)
-        body = cleanup(body, self.generated, set(params_of(self.fn)))
+        body = cleanup(body, self.generated, set(params_of(self.fn)), lambda n_: n_ in self.locals)
         return body or [ast.copy_location(ast.Pass(), self.fn)]
 
     def stat(self, k):
@@ -772,6 +785,24 @@ class FnPE:
                 for t, v in zip(s.targets[0].elts, value.elts):
                     a = ast.copy_location(ast.Assign(targets=[copy.deepcopy(t)], value=v), s)
                     out += self.assign(a, env)
+                return out
+        # a, b = zip(f(x), g(y)) with f, g returning pairs: the transposition written out  a = (f(x)[0], g(y)[0]); b = (f(x)[1], g(y)[1])
+        if len(s.targets) == 1 and isinstance(s.targets[0], (ast.Tuple, ast.List)) and isinstance(value, ast.Call) and isinstance(value.func, ast.Name) \
+                and value.func.id == "zip" and "zip" not in self.locals and value.args and not value.keywords \
+                and not any(isinstance(t, ast.Starred) for t in s.targets[0].elts) and all(isinstance(a, ast.Call) for a in value.args):
+            n_t = len(s.targets[0].elts)
+            ars = [self.ret_arity(a) for a in value.args]
+            if all(a == n_t for a in ars):
+                out = list(pre)
+                temps = []
+                for a in value.args:
+                    t = self.fresh("_z")
+                    out += self.assign(ast.copy_location(ast.Assign(targets=[name(t, ast.Store(), s)], value=a), s), env)
+                    temps.append(t)
+                for i, tg in enumerate(s.targets[0].elts):
+                    col = ast.Tuple(elts=[ast.Subscript(value=name(t, at=s), slice=const(i, s), ctx=ast.Load()) for t in temps], ctx=ast.Load())
+                    out += self.assign(ast.copy_location(ast.Assign(targets=[copy.deepcopy(tg)], value=ast.copy_location(col, s)), s), env)
+                self.stat("folds")
                 return out
         # starred unpacking of a call with a known return arity / of a literal
         if len(s.targets) == 1 and isinstance(s.targets[0], (ast.Tuple, ast.List)) and any(isinstance(t, ast.Starred) for t in s.targets[0].elts):
@@ -1834,9 +1865,15 @@ class FnPE:
         suffix = self.m.fresh("")
         mp = {nm: f"{nm}{suffix}" for nm in bound_names(callee)}
         pstmts = []
+        rebound = {n.id for n in own_nodes(callee.body) if isinstance(n, ast.Name) and isinstance(n.ctx, (ast.Store, ast.Del))}
         for p_, v in binds:
             if isinstance(v, ast.Name) and v.id == "self" and p_ == "self":
                 mp.pop("self", None)
+                continue
+            if isinstance(v, ast.Name) and v.id not in env and p_ not in rebound and (v.id == "self" or v.id in params_of(self.fn)) \
+                    and v.id not in {n.id for n in own_nodes(self.fn.body) if isinstance(n, ast.Name) and isinstance(n.ctx, (ast.Store, ast.Del))}:
+                # the parameter is just another name for a never re-bound parameter of the caller (self, algo): use that name
+                mp[p_] = v.id
                 continue
             pstmts.append(ast.copy_location(ast.Assign(targets=[name(mp[p_], ast.Store(), at)], value=v), at))
         cbody = callee.body
@@ -1847,9 +1884,11 @@ class FnPE:
             body = single_exit(body, ast.Return, lambda x: on_ret(x.value), final=on_ret(None))
         except Bail:
             return None
+        own_params = set(params_of(self.fn)) | {"self"}
         for nm in mp.values():
             self.locals.add(nm)
-            self.generated.add(nm)
+            if nm not in own_params:
+                self.generated.add(nm)
         for k in self._mutated_names(callee):
             if k[1] in mp:
                 self.mutated.add((k[0], mp[k[1]]))
@@ -1924,10 +1963,11 @@ class FnPE:
         return binds
 
 
-def cleanup(body, generated, params):
+def cleanup(body, generated, params, is_local=None):
     """copy propagation and dead-store removal restricted to the names this pass created:
        g = <name>   with g and <name> both bound exactly once in the function (or <name> a never re-bound parameter),
                     the binding of g not inside a loop         ->  g is replaced by <name>
+       g = <literal> with g bound exactly once, not inside a loop       ->  g is replaced by the literal
        g = <atom>   with g never read                                  ->  dropped"""
     for _ in range(6):
         stores, loads = {}, {}
@@ -1976,6 +2016,10 @@ def cleanup(body, generated, params):
                     if stores.get(g, 0) == 1 and g not in inloop:
                         if isinstance(s.value, ast.Name) and once(s.value.id) and s.value.id not in inloop and s.value.id != g:
                             mp[g] = s.value
+                        elif isinstance(s.value, ast.Constant) and (s.value.value is None or isinstance(s.value.value, (str, bool, int, float))):
+                            mp[g] = s.value         # a field / parameter holding a literal
+                        elif is_local is not None and isinstance(s.value, ast.Attribute) and _global_ref(s.value, is_local):
+                            mp[g] = s.value         # a function of an imported module handed over as a value (estimator = fdd.SD_est)
                         elif loads.get(g, 0) == 0 and (is_atom(s.value) or is_const_lit(s.value) or (isinstance(s.value, (ast.Tuple, ast.List)) and all(is_atom(x) for x in s.value.elts))):
                             dead.add(g)
                     elif loads.get(g, 0) == 0 and is_atom(s.value) and not isinstance(s.value, (ast.Subscript,)):
@@ -2019,6 +2063,12 @@ def cleanup(body, generated, params):
     return body
 
 
+def _global_ref(e, is_local):
+    while isinstance(e, ast.Attribute):
+        e = e.value
+    return isinstance(e, ast.Name) and not is_local(e.id) and e.id not in ("self", "cls")
+
+
 def terminates_all(stmts):
     """every path through stmts ends in return / raise"""
     if not stmts:
@@ -2038,4 +2088,23 @@ def desugar(trees):
     if os.environ.get("VERIF_NODESUGAR"):
         return {}
     d = Desugar(trees)
-    return d.run()
+    st = d.run()
+    st["_desugarer"] = d
+    return st
+
+
+def respecialise(d, modname, fnode, cls_node=None):
+    """the normaliser applied again to a function whose branches have been decided (sa/astq.PrunedFn): records that differed
+    between the branches are now literal.  Returns a new FunctionDef (or the given one when nothing can be done)."""
+    if d is None or os.environ.get("VERIF_NODESUGAR"):
+        return fnode
+    m = d.mods.get(modname)
+    if m is None:
+        return fnode
+    try:
+        pe = FnPE(d, m, fnode, cls_node)
+        new = copy.copy(fnode)
+        new.body = pe.run()
+        return ast.fix_missing_locations(new)
+    except (Bail, RecursionError):
+        return fnode
